@@ -58,7 +58,7 @@ End Sim.
 
 (* symbolic execution: unfold everything except real arithmetic and the vector primitives *)
 Ltac symexec :=
-  cbv -[Rplus Rminus Rmult Rdiv Ropp Rinv IZR vadd vsub vlin vscal vzero app];
+  cbv -[Rplus Rminus Rmult Rdiv Ropp Rinv IZR Rle_dec vadd vsub vlin vscal vmul vdiv vzero vmaxc app];
   try reflexivity.
 
 Local Open Scope R_scope.
@@ -391,3 +391,95 @@ Proof.
     + cbn [h_log app]. rewrite pg_full_trace. reflexivity.
 Qed.
 End GenPG.
+
+(* ===================== solvers over lists of operators: per-index programs =====================
+   The inner loops  for j in range(len(L))  are regenerated as programs over the
+   indexed names "duals[j]", "L[j]", "tmp_rans[L[j].range]", ...  One execution
+   for a generic index is proved to compute the per-index step of the model;
+   the skeleton of the outer loop body is checked to be the one the model's
+   step functions assume.  (The sweep over all indices, with the facts that
+   the duals are distinct objects and distinct from the temporaries -- they
+   are created by separate .zero() / .element() calls in the hash-pinned
+   preamble -- is the hand-written part: ad_sweep_opt, kz_sweep, em_sweep.) *)
+Local Open Scope string_scope.
+
+Lemma adupdates_skeleton :
+  adupdates_outer = [OFor "i" adupdates_inner1; OFor "j" adupdates_inner2; OStmt (Callback "x")]
+  /\ adupdates_simple_outer = [OFor "i" adupdates_simple_inner1; OFor "j" adupdates_simple_inner2]
+  /\ adupdates_inner1 = adupdates_simple_inner1.
+Proof. repeat split. Qed.
+Lemma kaczmarz_skeleton : kaczmarz_outer = [OFor "i" kaczmarz_inner1; OStmt (Callback "x")].
+Proof. reflexivity. Qed.
+Lemma osmlem_skeleton : osmlem_outer = [OFor "i" osmlem_inner1] /\ mlem_is_osmlem_with_one_operator = true.
+Proof. split; reflexivity. Qed.
+
+Section GenADUP.
+Variables (stepsize : R) (o : @adop R) (junk : string -> Rvec).
+Hypothesis scalar_inner : ad_inner_v o = None.       (* np.isscalar(inner_stepsizes[j]) *)
+(* index i / j: the j-th operator, functional and inner step size *)
+Definition adup_I : interp :=
+  mk_I [("stepsize", stepsize); ("inner_stepsizes[j]", ad_inner o)]
+       [("L[i].adjoint", ad_Ladj o); ("L[j]", ad_L o); ("L[j].adjoint", ad_Ladj o); ("proxs[j]", ad_prox o);
+        ("g[j].convex_conj.proximal(stepsize * inner_stepsizes[j])", ad_prox o)] [] [] junk.
+
+(* first inner loop (identical in both versions): one step of ad_pre *)
+Lemma gen_adup_pre_step x d log :
+  body_step adup_I adupdates_inner1 (mk_hst [("x", 0%nat); ("duals[i]", 1%nat)] [x; d] log)
+  = Some (mk_hst [("x", 0%nat); ("duals[i]", 1%nat)] [ad_pre stepsize [o] [d] x; d] log).
+Proof. symexec. Qed.
+
+(* second inner loop, optimised: x, the dual and the shared temporary after index j *)
+Definition adup_x1 (x d : Rvec) : Rvec :=
+  vsub x (vscal (1 / stepsize) (ad_Ladj o (vsub (ad_prox o (ad_arg stepsize o d x)) d))).
+Lemma gen_adup_opt_step x d t log :
+  body_step adup_I adupdates_inner2
+    (mk_hst [("x", 0%nat); ("duals[j]", 1%nat); ("tmp_rans[L[j].range]", 2%nat)] [x; d; t] log)
+  = Some (mk_hst [("x", 0%nat); ("duals[j]", 1%nat); ("tmp_rans[L[j].range]", 2%nat); ("arg", 3%nat); ("tmp_ran", 2%nat)]
+            [adup_x1 x d; ad_prox o (ad_arg stepsize o d x); ad_prox o (ad_arg stepsize o d x); ad_arg stepsize o d x] log).
+Proof. unfold adup_x1, ad_arg. rewrite scalar_inner. symexec. Qed.
+(* reference *)
+Lemma gen_adup_ref_step x d log :
+  body_step adup_I adupdates_simple_inner2 (mk_hst [("x", 0%nat); ("duals[j]", 1%nat)] [x; d] log)
+  = Some (mk_hst [("x", 0%nat); ("duals[j]", 1%nat); ("dual_tmp", 2%nat)]
+            [adup_x1 x d; ad_prox o (ad_arg stepsize o d x); ad_prox o (ad_arg stepsize o d x)] log).
+Proof. unfold adup_x1, ad_arg. rewrite scalar_inner. symexec. Qed.
+(* these are exactly the per-index steps of the model sweeps *)
+Lemma adup_model_step x d tmps :
+  (ad_key o < List.length tmps)%nat ->
+  ad_sweep_opt stepsize [o] [d] tmps x
+  = (adup_x1 x d, [ad_prox o (ad_arg stepsize o d x)], setnth (ad_key o) (ad_prox o (ad_arg stepsize o d x)) tmps,
+     [adup_x1 x d])
+  /\ ad_sweep_ref stepsize [o] [d] x = (adup_x1 x d, [ad_prox o (ad_arg stepsize o d x)], [adup_x1 x d]).
+Proof.
+  intros Hk. cbn [ad_sweep_opt ad_sweep_ref]. rewrite (getnth_setnth _ _ _ Hk). split; reflexivity.
+Qed.
+End GenADUP.
+
+Section GenKaczmarz.
+Variables (proj : Rvec -> Rvec) (o : @kzop R) (junk : string -> Rvec).
+Definition kz_I : interp :=
+  mk_I [("omega[i]", kz_omega o)] [("ops[i]", kz_A o); ("projection", proj)]
+       [("ops[i].derivative.adjoint", kz_Dadj o)] [] junk.
+Definition kz_env : list (string * nat) :=
+  [("x", 0%nat); ("caller.x", 0%nat); ("tmp_dom", 1%nat); ("rhs[i]", 2%nat); ("tmp_rans[ops[i].range]", 3%nat)].
+Lemma gen_kz_step x td t log :
+  body_step kz_I kaczmarz_inner1 (mk_hst kz_env [x; td; kz_rhs o; t] log)
+  = Some (mk_hst (kz_env ++ [("tmp_ran", 3%nat)])%list
+            [kz_one proj o x; kz_Dadj o x (vsub (kz_A o x) (kz_rhs o)); kz_rhs o; vsub (kz_A o x) (kz_rhs o)] log).
+Proof. symexec. Qed.
+End GenKaczmarz.
+
+Section GenOSMLEM.
+Variables (eps : R) (o : @emop R) (junk : string -> Rvec).
+Definition em_I : interp :=
+  mk_I [("eps", eps)] [("op[i]", em_A o); ("op[i].adjoint", em_Aadj o)] [] [] junk.
+Definition em_env : list (string * nat) :=
+  [("x", 0%nat); ("caller.x", 0%nat); ("tmp_dom", 1%nat); ("tmp_ran[i]", 2%nat); ("data[i]", 3%nat);
+   ("sensitivities[i]", 4%nat)].
+Lemma gen_em_step x td tr log :
+  body_step em_I osmlem_inner1 (mk_hst em_env [x; td; tr; em_data o; em_sens o] log)
+  = Some (mk_hst em_env
+            [em_one eps o x; vdiv (em_Aadj o (vdiv (em_data o) (vmaxc eps (em_A o x)))) (em_sens o);
+             vdiv (em_data o) (vmaxc eps (em_A o x)); em_data o; em_sens o] (log ++ [em_one eps o x])).
+Proof. symexec. Qed.
+End GenOSMLEM.
